@@ -25,27 +25,8 @@ static uint8_t IMG[LINES * BPL];                /* exact-size image: (count[0]+c
 #define ST_BPL BPL
 #include "c05_slicer_stub.h"
 
-/* representation invariant of the pattern table (8 "ways" per scan line: job numbers 1..n_jobs, 0, or a negative
- * counter).  Every entry <= n_jobs; the last way is never a job (add_job_to_pattern "reserves a NULL way" and
- * stores the counter -128 there; decode_pattern stores -128 or rotates a non-positive entry into it); and when
- * the last way is 0 at most six ways hold jobs (otherwise decode_pattern's "found nothing" swap at the last way
- * would make the row all-positive and the next scan of the row would run off its end).
- * Shown inductive for decode_pattern here; for add_job_to_pattern / remove_job_from_pattern by C04 (h_c04.c). */
-static int pat_inv(const int8_t *pat, unsigned n_jobs)
-{
-  unsigned r, w;
-  for (r = 0; r < LINES; r++) {
-    unsigned npos = 0;
-    for (w = 0; w < _VBI3_RAW_DECODER_MAX_WAYS; w++) {
-      int v = pat[r * _VBI3_RAW_DECODER_MAX_WAYS + w];
-      if (v > (int) n_jobs) return 0;
-      if (v > 0) npos++;
-    }
-    if (pat[r * _VBI3_RAW_DECODER_MAX_WAYS + _VBI3_RAW_DECODER_MAX_WAYS - 1] > 0) return 0;
-    if (pat[r * _VBI3_RAW_DECODER_MAX_WAYS + _VBI3_RAW_DECODER_MAX_WAYS - 1] == 0 && npos > 6) return 0;
-  }
-  return 1;
-}
+/* representation invariant of the pattern table: models/c05_slicer_stub.h st_pat_inv() */
+static int pat_inv(const int8_t *pat, unsigned n_jobs) { return st_pat_inv(pat, LINES, n_jobs); }
 
 /* the public sampling parameter fields, all symbolic (0.2: vbi_sampling_par == vbi_raw_decoder; the private
  * members behind them - mutex, legacy job table - are not read by the units under test and stay zero) */
